@@ -4,4 +4,5 @@ set -e
 cd "$(dirname "$0")/harness"
 export CARGO_NET_OFFLINE=true
 cargo +nightly build --offline --profile chk --bin vcheck
+cargo +nightly build --offline --profile dbg --bin vcheck
 cargo +nightly build --offline --profile rel --bin vcheck
